@@ -12,6 +12,7 @@ RULE = ('histories = every valid sequence up to depth D over the alphabet {V(mod
         'view j, T(j): tabulate through view j} for 4 files (pair, EAM, Finnis-Sinclair, ADP), each executed on fresh real objects in lock-step '
         'with the reference (text-level deletion of entries, parsed and tabulated unfiltered); plus every file x filter x compatible target '
         'through potable --include-species/--exclude-species; states = distinct reference states (tuple of live views + which were read)')
+RULE += '; nested views (a view of a view), caller-owned containers {one list re-used, tuple, one-shot iterator}; the files relabelled with a prefix chain (H, He, Hes), charged labels (Ce3+, Ce4+) and case variants (Co, CO); entries with a modifier in a later range; a species filter combined with one command-line edit (-e / -r / -a)'
 ASSUMPTIONS = [
     'the hand-edited file is obtained by deleting [Pair], [EAM-Embed] and [EAM-Density] entries only (the statement lists pair, embedding and density entries)',
     'the edited file is parsed and tabulated by the same implementation without filter: a relational oracle, no expected numbers',
